@@ -198,7 +198,7 @@ def check_location_parsing(chk, ix):
             _fail(chk, "L9", fp, "%r -> %r" % (text, made[0]), "the location text %r is parsed as file %r line %r; expected file %r line %r" % (
                 text, made[0][0], made[0][1], want[0], want[1]))
     lp = ix.func("behave.runner_util:FeatureListParser.parse")
-    listing = "# comment\nalice.feature\n\n   # indented comment\n  bob.feature:12  \nsub/charly.feature:3\n/abs/doro.feature\n\t\n#last"
+    listing = "# comment\nalice.feature\n\n   # indented comment\n  bob.feature:12  \nsub/charly.feature:3\n/abs/doro.feature\n\t\ne_ticket #42 login.feature:5\n#last"
     for here in (None, "/proj/lists", "."):
         got = []
         st2 = dict(stubs)
@@ -213,7 +213,8 @@ def check_location_parsing(chk, ix):
         chk.instance("L9")
         if len(outs) != 1 or outs[0][1] != "val":
             raise AnalysisError("FeatureListParser.parse not foldable: %r" % ([(k, v) for _, k, v in outs][:3],))
-        names = ["alice.feature", "bob.feature:12", "sub/charly.feature:3", "/abs/doro.feature"]
+        # a '#' makes a comment only at the start of a line: file names may contain ' #'
+        names = ["alice.feature", "bob.feature:12", "sub/charly.feature:3", "/abs/doro.feature", "e_ticket #42 login.feature:5"]
         want = [_os.path.normpath(n if (not here or _os.path.isabs(n)) else _os.path.join(here, n)) for n in names]
         if got == want:
             chk.ok("L9", {"listfile": listing, "here": here, "locations": got}, nontrivial_key=("list", here))
